@@ -73,6 +73,17 @@ theorem standardize_mean_zero {n : ℕ} (x : Fin n → ℝ) (hn : 0 < n) : mean 
 theorem standardize_var_one {n : ℕ} (x : Fin n → ℝ) (hn : 0 < n) (hv : var x ≠ 0) : var (standardize x) = 1 :=
   var_standardize x hn hv
 
+/-- **the algorithm of `Phenotypes.standardize` computes the definition**: scaling every value by a positive factor (the code: a
+    power of two, F31), centring, centring a second time (F33) and dividing by the root mean square gives, over the reals, exactly
+    `(x - mean x) / sd x` – the scaling cancels and the second centring is the identity; what both steps change is rounding only -/
+theorem code_algorithm_is_standardize {n : ℕ} (c : ℝ) (hc : 0 < c) (x : Fin n → ℝ) (hn : 0 < n) (hv : var x ≠ 0) :
+    standardizeCode c x = standardize x :=
+  standardizeCode_eq c hc x hn hv
+
+/-- the second centring changes nothing over the reals -/
+theorem second_centring_is_identity {n : ℕ} (x : Fin n → ℝ) (hn : 0 < n) : center (center x) = center x :=
+  center_center x hn
+
 open PhenoSim in
 /-- documented: neither heritability nor environment → `1 - Σβ²` floored at 0 -/
 theorem noise_default (sumB2 varG : ℚ) :
